@@ -52,10 +52,33 @@ def show(codes: List[int]) -> str:
     return "".join(chr(c) if 0x20 <= c < 0x7F else f"\\x{c:02x}" if c < 256 else f"\\u{c:04x}" for c in codes)
 
 
+def through_predicates(model: Model, sites):
+    """a match that sits in a one-expression predicate helper on the helper's own parameter is used wherever the helper is
+    called: those calls are the use sites (the helper's other disjuncts are F3's business, not the language's)"""
+    import dataclasses
+    out = []
+    for s in sites:
+        fi = model.functions.get(s.func)
+        body = [x for x in fi.node.body if not (isinstance(x, ast.Expr) and isinstance(x.value, ast.Constant))] if fi is not None and not isinstance(fi.node, ast.Lambda) else []
+        is_pred = fi is not None and fi.cls is None and len(body) == 1 and isinstance(body[0], ast.Return) and isinstance(s.subject, ast.Name) and s.subject.id in fi.params()
+        if not is_pred:
+            out.append(s)
+            continue
+        calls = []
+        for cq, cfi in model.functions.items():
+            if cfi.module != fi.module or isinstance(cfi.node, ast.Lambda) or cfi is fi:
+                continue
+            for c in walk_no_nested(cfi.node):
+                if isinstance(c, ast.Call) and isinstance(c.func, ast.Name) and model.resolve_name(cfi.module, c.func.id) == fi.qualname:
+                    calls.append(dataclasses.replace(s, func=cq, node=c))
+        out.extend(calls or [s])
+    return out
+
+
 def check_language(model: Model, run: Run) -> None:
     from .c15 import attribute_pattern_name
     pname = attribute_pattern_name(model)
-    sites = [s for s in find_sites(model) if s.module == FILTER and s.name == pname]
+    sites = through_predicates(model, [s for s in find_sites(model) if s.module == FILTER and s.name == pname])
     run.floor("attribute pattern use sites", len(sites), 3)
     known = [k for k in load_known("C15") if k["rule"] == "F4-attribute-language"]
     roles = {}
